@@ -234,6 +234,7 @@ SPEC = {
         "elab_rejects_rvalue_out_arg_chain_partial",
         "assignment_operands", "binary_operands_equal", "binop_rules",
         "elab_assign_exact", "elab_arith_exact", "elab_call_args_exact", "elab_intrinsic_call_exact",
+        "resource_index_widths", "resource_element_constness",
         "swizzle_in_range", "matrix_swizzle_in_range", "member_of_struct", "ctor_slots_exact",
         "const_struct_member_write_accepted", "rvalue_subscript_write_accepted", "const_array_assignment_accepted"]],
     "harness": "c03",
